@@ -162,8 +162,7 @@ def oracle(h):
     if (w0["st"] == 7 and w0["role"] != 1) or (w0["st"] == 8 and w0["role"] != 2):
         return fails           # LOGON_INITIAL_SENT / _RECV are entered together with the role assignment
     established = w0["st"] in ESTABLISHED
-    served_rr = False      # an inbound ResendRequest was serviced (D12: may leave next_num_out rewound)
-    raw_sent = False       # the application sent a message numbered by itself (D20)
+    raw_sent = False       # the application sent a plain SequenceReset, numbered by itself and journaled (D20)
     ndisc = 0
     for i, (op, step) in enumerate(zip(h.ops, h.steps)):
         before, after = h.worlds[i], h.worlds[i + 1]
@@ -175,7 +174,7 @@ def oracle(h):
         dead = before["st"] <= 3
         same = all(before[k] == after[k] for k in ("st", "nin", "nout", "sout", "sin", "in_rows")) and \
             [n for n, _ in before["out_rows"]] == [n for n, _ in after["out_rows"]]
-        jcls = "D12-resend-rewind" if (step[0] == 5 and served_rr) else ("D20-app-raw-seqnum" if (step[0] == 5 and raw_sent) else None)
+        jcls = "D20-app-raw-seqnum" if (step[0] == 5 and raw_sent) else None
         if op[0] == 0:
             msg = op[1]
             mtype = msg[0]
@@ -223,11 +222,9 @@ def oracle(h):
                     established = True     # reported above (D15 / D25) unless a Logon handling anomaly
                     if mtype == "A":
                         fails.append((i, "session established without on_logon", None))
-            if mtype == "2" and after["st"] > 3 and established:
-                served_rr = True
         elif op[0] == 1:
             t = op[1][0]
-            raw = t == "4" or _tag(op[1], "43") == "Y"
+            raw = t == "4" and _tag(op[1], "123") != "Y" and _tag(op[1], "43") != "Y"
             must_refuse = dead or (not established and t not in ("A", "5"))
             if must_refuse:
                 cls = "D25-acceptor-stuck-logon-recv" if before["st"] == 8 else None
